@@ -1,14 +1,18 @@
 /-
-  C02Gen (part 6): the `call` case and the induction over the fuel for whole programs.
+  C02Gen (part 6): the `call` case and the induction over the fuel for whole programs, for both
+  calling conventions (`PCtx.fp`).
 
   * `PCtx`, `ProgOK`, `RoutOK`: a source program, the multi-routine graph program generated from
     it, and what is known about every routine graph (prologue block, `ShapeR` of the wrapped
-    body, arity typing);
+    body, arity typing) and about every activation (scratch convention: the frame has no `proto`;
+    frame-pointer convention: the frame has `proto n r`, the arguments are the top of the
+    activation's stack base, and the source semantics' parameter cells hold them — `pInv`);
   * `callee_run`: from the `callsub` instruction, through the callee's prologue and body, back to
     the instruction after the `callsub` (uses the induction hypothesis at the callee — the fuel of
     `Src.eval` decreases at every call, so recursion needs no extra argument);
   * `CallFrame`: what the ops around the `callsub` (nothing, or the spill / restore code of a
-    re-entrant call) have to do; `case_call` is proved relative to a `FrameProvider`;
+    re-entrant call) have to do; `CallInv`: the caller's invariant on the source world survives the
+    call; `case_call` is proved relative to a `FrameProvider` and `CallInv`;
   * `sound_all`: every routine of the program matches `Src.eval`.
 -/
 import PyTealV.Proofs.C02GenSem
@@ -23,34 +27,53 @@ structure PCtx where
   p : Prog
   Pg : PProg
   version : Nat
+  fp : Bool := false
+  dyn : Bool := false
 
-def PCtx.K (P : PCtx) (rv : Bool) : RK := { callees := calleesOf P.p, rv := rv }
+def PCtx.ign (P : PCtx) : List Nat := ignOf P.fp P.p
+
+/-- the permitted deviations: the stack limit, and with run-time addressed slots the range check -/
+def PCtx.dev (P : PCtx) : Fail → Prop := if P.dyn then devDyn else devOvf
+
+theorem PCtx.dev_ovf (P : PCtx) : P.dev ovfF := by
+  unfold PCtx.dev
+  split
+  · exact .inl rfl
+  · rfl
 
 def mainCfg (P : PCtx) : RCfg :=
   { version := P.version, inSub := false, callees := calleesOf P.p, markIndex := false }
 
 def subCfg (P : PCtx) (sd : SubDef) : RCfg :=
-  { version := P.version, inSub := true, framePointers := false, frameParams := [], callees := calleesOf P.p,
-    reenters := sd.reenters, localSlots := spillSlots sd, markIndex := false }
+  { version := P.version, inSub := true, framePointers := P.fp,
+    frameParams := if P.fp then fpParams sd else [], callees := calleesOf P.p,
+    reenters := sd.reenters, localSlots := spillSlotsC P.fp sd, markIndex := false }
 
 /-- `compileSubroutine`: a body without return is wrapped -/
 def wrapBody (sd : SubDef) : Expr :=
   if hasReturn sd.body then sd.body
   else if sd.hasRet then .ret (some sd.body) else .seq [sd.body, .ret none]
 
-/-- the prologue of the scratch-slot convention: store the arguments, last one first -/
-def prologue (sd : SubDef) : List Instr := (sd.params.reverse.map (·.2)).map Instr.store
+/-- the prologue: scratch-slot convention — store the arguments, last one first;
+    frame-pointer convention (by-value parameters only) — `proto` -/
+def prologue (fp : Bool) (sd : SubDef) : List Instr :=
+  if fp then [.proto sd.params.length (if sd.hasRet then 1 else 0)]
+  else (sd.params.reverse.map (·.2)).map Instr.store
 
 /-- what is known about the graph of subroutine `f` -/
 structure SubOK (P : PCtx) (f : Nat) (sd : SubDef) : Prop where
-  look : ∃ G sf bs, P.Pg.subs.lookup (subLabel f) = some (G, sf) ∧ Blk G sf (prologue sd) (.next bs) ∧
+  look : ∃ G sf bs, P.Pg.subs.lookup (subLabel f) = some (G, sf) ∧ Blk G sf (prologue P.fp sd) (.next bs) ∧
     ShapeR G (subCfg P sd) (wrapBody sd) bs 0 none
-  wt : wtR (P.K sd.hasRet) false true (if sd.hasRet then 1 else 0) sd.body = true
+  wt : wtR (subK P.fp P.p sd P.dyn) false true (if sd.hasRet then 1 else 0) sd.body = true
   pnodup : (sd.params.map (·.2)).Nodup
-  p256 : ∀ kv ∈ sd.params, kv.2 < 256
-  snodup : (spillSlots sd).Nodup
-  s256 : ∀ s ∈ spillSlots sd, s < 256
-  sset : ∀ x, x ∈ sd.locals ↔ x ∈ spillSlots sd
+  p256 : P.fp = false → ∀ kv ∈ sd.params, kv.2 < 256
+  pval : P.fp = true → ∀ kv ∈ sd.params, kv.1 = ParamKind.val
+  pign : P.fp = true → ∀ kv ∈ sd.params, kv.2 ∈ P.ign
+  plocal : P.fp = true → ∀ kv ∈ sd.params, kv.2 ∈ sd.locals
+  snodup : (spillSlotsC P.fp sd).Nodup
+  s256 : ∀ s ∈ spillSlotsC P.fp sd, s < 256
+  sset : ∀ x, x ∉ P.ign → (x ∈ sd.locals ↔ x ∈ spillSlotsC P.fp sd)
+  snign : ∀ x ∈ spillSlotsC P.fp sd, x ∉ P.ign
 
 /-- routine `f` has a graph in the program (a certificate holds the reachable routines only) -/
 def Present (P : PCtx) (f : Nat) : Prop := (P.Pg.subs.lookup (subLabel f)).isSome = true
@@ -58,33 +81,210 @@ def Present (P : PCtx) (f : Nat) : Prop := (P.Pg.subs.lookup (subLabel f)).isSom
 /-- every declared routine *that has a graph* has the properties `SubOK` -/
 def ProgOK (P : PCtx) : Prop := ∀ f sd, findSub P.p f = some sd → Present P f → SubOK P f sd
 
-/-- a routine of the program: its machine context, generator configuration, typing context and
-    the `cur` field of the source environment -/
-inductive RoutOK (P : PCtx) : MCtx → RCfg → RK → Option Nat → Prop
-  | main {X : MCtx} : X.Pg = P.Pg → X.r = none → RoutOK P X (mainCfg P) (P.K true) none
-  | sub {X : MCtx} {f : Nat} {sd : SubDef} {fr : GFrame} {cs' : List GFrame} : X.Pg = P.Pg →
-      findSub P.p f = some sd → X.r = some (subLabel f) → X.cs = fr :: cs' → fr.proto = none →
-      RoutOK P X (subCfg P sd) (P.K sd.hasRet) (some f)
+/-- frame-pointer convention: the parameter cells of the source semantics hold the arguments
+    `st` (last argument first, as on the stack) of this activation -/
+def pInv (sd : SubDef) (st : List Val) : World → Prop :=
+  fun w => ∀ pr ∈ (sd.params.map (·.2)).zip st.reverse, getSlot w.scratch pr.1 = pr.2
 
-theorem RoutOK.kind {P : PCtx} {X cfg K cur} (h : RoutOK P X cfg K cur) : RKind X cfg := by
-  cases h with
-  | main _ hr => exact .main rfl hr
-  | sub _ _ hr hcs hpr => exact .sub rfl hr hcs hpr
+/-- a routine activation of the program: its machine context, generator configuration, typing
+    context and the `cur` field of the source environment -/
+inductive RoutOK (P : PCtx) : MCtx → RCfg → RK → Option Nat → Prop
+  | main {X : MCtx} : X.Pg = P.Pg → X.r = none → X.ign = P.ign → X.inv = noInv → X.base = [] → X.dev = P.dev →
+      RoutOK P X (mainCfg P) (mainK P.fp P.p P.dyn) none
+  | sub {X : MCtx} {f : Nat} {sd : SubDef} {fr : GFrame} {cs' : List GFrame} : X.Pg = P.Pg → P.fp = false →
+      findSub P.p f = some sd → X.r = some (subLabel f) → X.cs = fr :: cs' → fr.proto = none →
+      X.ign = P.ign → X.inv = noInv → X.dev = P.dev →
+      RoutOK P X (subCfg P sd) (subK P.fp P.p sd P.dyn) (some f)
+  | subFp {X : MCtx} {f : Nat} {sd : SubDef} {fr : GFrame} {cs' : List GFrame} {st σc : List Val} :
+      X.Pg = P.Pg → P.fp = true →
+      findSub P.p f = some sd → X.r = some (subLabel f) → X.cs = fr :: cs' →
+      fr.proto = some (sd.params.length, if sd.hasRet then 1 else 0) →
+      X.base = st ++ σc → st.length = sd.params.length → fr.height = X.base.length →
+      X.ign = P.ign → X.inv = pInv sd st → X.dev = P.dev →
+      RoutOK P X (subCfg P sd) (subK P.fp P.p sd P.dyn) (some f)
 
 theorem RoutOK.pg {P : PCtx} {X cfg K cur} (h : RoutOK P X cfg K cur) : X.Pg = P.Pg := by
   cases h <;> assumption
 
-theorem RoutOK.mark {P : PCtx} {X cfg K cur} (h : RoutOK P X cfg K cur) : cfg.markIndex = false := by
-  cases h <;> rfl
-
-theorem RoutOK.fp {P : PCtx} {X cfg K cur} (h : RoutOK P X cfg K cur) : cfg.frameParams = [] := by
-  cases h <;> rfl
+theorem RoutOK.ign {P : PCtx} {X cfg K cur} (h : RoutOK P X cfg K cur) : X.ign = P.ign := by
+  cases h <;> assumption
 
 theorem RoutOK.callees {P : PCtx} {X cfg K cur} (h : RoutOK P X cfg K cur) : cfg.callees = calleesOf P.p := by
   cases h <;> rfl
 
 theorem RoutOK.kcallees {P : PCtx} {X cfg K cur} (h : RoutOK P X cfg K cur) : K.callees = calleesOf P.p := by
-  cases h <;> rfl
+  cases h with
+  | main => rfl
+  | sub _ hfp => simp only [subK, hfp]; rfl
+  | subFp _ hfp => simp only [subK, hfp]; rfl
+
+theorem RoutOK.kign {P : PCtx} {X cfg K cur} (h : RoutOK P X cfg K cur) : K.ign = X.ign := by
+  cases h with
+  | main _ _ hi => rw [hi]; rfl
+  | sub _ hfp _ _ _ _ hi => rw [hi]; simp only [subK, hfp, PCtx.ign, ignOf]; rfl
+  | subFp _ hfp _ _ _ _ _ _ _ hi => rw [hi]; simp only [subK, hfp, PCtx.ign, ignOf]; rfl
+
+theorem RoutOK.dev {P : PCtx} {X cfg K cur} (h : RoutOK P X cfg K cur) : X.dev = P.dev := by
+  cases h <;> assumption
+
+theorem RoutOK.kdyn {P : PCtx} {X cfg K cur} (h : RoutOK P X cfg K cur) :
+    K.dyn = true → X.dev rangeL ∧ X.dev rangeS := by
+  have hk : K.dyn = P.dyn := by
+    cases h with
+    | main => rfl
+    | sub => unfold subK; split <;> rfl
+    | subFp => unfold subK; split <;> rfl
+  intro hd
+  rw [h.dev, PCtx.dev, ← hk, hd]
+  exact ⟨.inr (.inl rfl), .inr (.inr rfl)⟩
+
+/-- the current routine of an activation has a graph -/
+theorem RoutOK.present {P : PCtx} {X cfg K f} (h : RoutOK P X cfg K (some f)) : Present P f := by
+  have hG := X.hG
+  have hr : X.r = some (subLabel f) := by cases h <;> assumption
+  rw [hr, h.pg] at hG
+  simp only [PProg.graphOf, Option.map_eq_some_iff] at hG
+  obtain ⟨a, ha, _⟩ := hG
+  simp only [Present, ha, Option.isSome_some]
+
+/-! ### frame-pointer convention: reading a parameter -/
+
+theorem frameDig_step {cx : Ctx} {X : MCtx} {fr : GFrame} {cs' : List GFrame} {n r i : Nat} {st σc : List Val} {val : Val}
+    (hcs : X.cs = fr :: cs') (hpr : fr.proto = some (n, r)) (hbase : X.base = st ++ σc) (hst : st.length = n)
+    (hh : fr.height = X.base.length) (hi : i < n) (hval : st.reverse[i]? = some val)
+    (b : Nat) (blk : Block) (m : MS) (hb : X.G[b]? = some blk) (hops : blk.ops = [.frameDig ((i : Int) - (n : Int))]) :
+    gstepP cx X.Pg (X.st ⟨b, 0⟩ (X.onBase m)) =
+      (match pushV (X.onBase m) val with
+       | .ok m' => .next (X.st ⟨b, 1⟩ m')
+       | .halt o => .halt o) := by
+  have hbelow : belowArgsG fr ((i : Int) - (n : Int)) = false := by
+    simp only [belowArgsG, hpr, decide_eq_false_iff_not, not_and]
+    intro _
+    omega
+  have hidx : (fr.height : Int) + ((i : Int) - (n : Int)) = ((σc.length + i : Nat) : Int) := by
+    rw [hh, hbase]; simp only [List.length_append, hst]; omega
+  have hlt : ¬ (σc.length + i ≥ (m.stack ++ X.base).length) := by
+    rw [hbase]; simp only [List.length_append, hst]; omega
+  have hget : (m.stack ++ X.base)[fromBottom (m.stack ++ X.base) (σc.length + i)]? = some val := by
+    rw [List.getElem?_reverse (by rw [hst]; exact hi)] at hval
+    simp only [fromBottom, hbase, List.length_append, hst]
+    rw [List.getElem?_append_right (by omega), List.getElem?_append_left (by omega)]
+    rw [← hval, hst]
+    congr 1
+    omega
+  have hneg : ¬ (((σc.length + i : Nat) : Int) < 0) := by omega
+  simp only [gstepP, MCtx.st, MCtx.onBase, X.hG, hb, hops, List.getElem?_cons_zero, execSimple, hcs, hbelow,
+    Bool.false_eq_true, if_false, hidx, Int.toNat_natCast, hneg]
+  rw [if_neg hlt, hget]
+  rfl
+
+/-- the entries of `fpParams`: parameter `i` is read with `frame_dig (i - n)` -/
+theorem getElem?_lt {α} {l : List α} {i : Nat} {x : α} (h : l[i]? = some x) : i < l.length := by
+  rcases Nat.lt_or_ge i l.length with h' | h'
+  · exact h'
+  · rw [List.getElem?_eq_none h'] at h; cases h
+
+theorem mem_fpParams {sd : SubDef} {pr : Var × Int} (h : pr ∈ fpParams sd) :
+    ∃ i k, i < sd.params.length ∧ sd.params[i]? = some (k, pr.1) ∧ pr.2 = (i : Int) - (sd.params.length : Int) := by
+  unfold fpParams at h
+  obtain ⟨⟨i, k, v⟩, hmem, hsome⟩ := List.mem_filterMap.mp h
+  obtain ⟨j, hj⟩ := List.mem_iff_getElem?.mp hmem
+  rw [List.getElem?_zip_eq_some] at hj
+  obtain ⟨h1, h2⟩ := hj
+  have hlt : j < sd.params.length := getElem?_lt h2
+  have hji : j = i := by
+    obtain ⟨_, hh⟩ := List.getElem?_eq_some_iff.mp h1
+    simpa using hh
+  subst hji
+  simp only [] at hsome
+  split at hsome
+  · simp only [Option.some.injEq] at hsome
+    subst hsome
+    exact ⟨j, k, hlt, h2, rfl⟩
+  · cases hsome
+
+theorem fpParams_of_param {sd : SubDef} {i : Nat} {v : Var} (h : sd.params[i]? = some (ParamKind.val, v)) :
+    (v, (i : Int) - (sd.params.length : Int)) ∈ fpParams sd := by
+  unfold fpParams
+  have hlt : i < sd.params.length := getElem?_lt h
+  refine List.mem_filterMap.mpr ⟨(i, ParamKind.val, v), ?_, by simp only []; rw [if_pos (by decide)]⟩
+  refine List.mem_iff_getElem?.mpr ⟨i, ?_⟩
+  rw [List.getElem?_zip_eq_some]
+  refine ⟨?_, h⟩
+  rw [List.getElem?_eq_some_iff]
+  exact ⟨by simpa using hlt, by simp⟩
+
+theorem RoutOK.facts {P : PCtx} (hP : ProgOK P) {X cfg K cur} (h : RoutOK P X cfg K cur) :
+    RFacts P.cx X cfg K := by
+  refine ⟨h.kign, ?_, ?_, ?_, h.kdyn, ?_, ?_⟩
+  · -- the invariant only looks at ignored slots
+    cases h with
+    | main _ _ _ hinv => intro w w' _ _; rw [hinv]; trivial
+    | sub _ _ _ _ _ _ _ hinv => intro w w' _ _; rw [hinv]; trivial
+    | @subFp f sd fr cs' st σc hpg hfp hsd hr hcs hpr hbase hlen hh hign hinv hdev =>
+      have hS := hP f sd hsd (RoutOK.present (.subFp hpg hfp hsd hr hcs hpr hbase hlen hh hign hinv hdev))
+      intro w w' hsame hw
+      rw [hinv] at hw ⊢
+      intro pr hpr
+      have hmem : pr.1 ∈ sd.params.map (·.2) := (List.of_mem_zip hpr).1
+      obtain ⟨kv, hkv, hkv2⟩ := List.mem_map.mp hmem
+      have : pr.1 ∈ X.ign := by rw [hign, ← hkv2]; exact hS.pign hfp kv hkv
+      rw [hsame pr.1 this]
+      exact hw pr hpr
+  · cases h <;> rfl
+  · cases h with
+    | main _ hr => exact .main rfl hr
+    | sub _ _ _ hr hcs hpr => exact .sub rfl hr hcs hpr
+    | subFp _ hfp _ hr hcs hpr hbase hlen hh =>
+      refine .subFp rfl hr hcs hpr hh ?_ ?_
+      · rw [hbase, List.length_append]; omega
+      · simp only [subK, hfp, if_true]
+  · -- reads of own parameters
+    cases h with
+    | main => intro v pr hf; cases hf
+    | sub _ hfp => intro v pr hf; simp only [subCfg, hfp, Bool.false_eq_true, if_false, List.find?_nil] at hf; cases hf
+    | @subFp f sd fr cs' st σc hpg hfp hsd hr hcs hpr hbase hlen hh hign hinv hdev =>
+      have hS := hP f sd hsd (RoutOK.present (.subFp hpg hfp hsd hr hcs hpr hbase hlen hh hign hinv hdev))
+      intro v pr hf
+      simp only [subCfg, hfp, if_true] at hf
+      have hmem := List.mem_of_find?_eq_some hf
+      have hv : pr.1 = v := by simpa using List.find?_some hf
+      obtain ⟨i, k, hi, hpi, hidx⟩ := mem_fpParams hmem
+      have hval : ∃ val, st.reverse[i]? = some val := by
+        have : i < st.reverse.length := by rw [List.length_reverse, hlen]; exact hi
+        exact ⟨st.reverse[i], List.getElem?_eq_getElem this⟩
+      obtain ⟨val, hval⟩ := hval
+      refine ⟨val, ?_, ?_⟩
+      · intro w hw
+        rw [hinv] at hw
+        have hz : (v, val) ∈ (sd.params.map (·.2)).zip st.reverse := by
+          refine List.mem_iff_getElem?.mpr ⟨i, ?_⟩
+          rw [List.getElem?_zip_eq_some]
+          refine ⟨?_, hval⟩
+          rw [List.getElem?_map, hpi, ← hv]
+          rfl
+        exact hw (v, val) hz
+      · intro b blk m hb hops
+        rw [hidx] at hops
+        exact frameDig_step hcs hpr hbase hlen hh hi hval b blk m hb hops
+  · -- an ignored slot the routine may read is one of its frame parameters
+    cases h with
+    | main => intro v _ hown; cases hown
+    | sub _ hfp => intro v _ hown; simp only [subK, hfp, Bool.false_eq_true, if_false] at hown; cases hown
+    | @subFp f sd fr cs' st σc hpg hfp hsd hr hcs hpr hbase hlen hh hign hinv hdev =>
+      have hS := hP f sd hsd (RoutOK.present (.subFp hpg hfp hsd hr hcs hpr hbase hlen hh hign hinv hdev))
+      intro v _ hown
+      simp only [subK, hfp, if_true] at hown
+      obtain ⟨kv, hkv, hkv2⟩ := List.mem_map.mp hown
+      obtain ⟨i, hi⟩ := List.mem_iff_getElem?.mp hkv
+      have hk : kv.1 = ParamKind.val := hS.pval hfp kv hkv
+      have hi' : sd.params[i]? = some (ParamKind.val, v) := by
+        rw [hi, ← hk, ← hkv2]
+      have hm := fpParams_of_param hi'
+      simp only [subCfg, hfp, if_true]
+      intro hnone
+      have := List.find?_eq_none.mp hnone _ hm
+      simp at this
 
 /-- every call block of a routine of the program calls a routine that has a graph -/
 def CallPresent (P : PCtx) : Prop :=
@@ -101,76 +301,55 @@ def bindW (sd : SubDef) (st : List Val) (w1 : World) : World :=
   let sc := (sd.params.zip st.reverse).foldl (fun sc (p : (ParamKind × Var) × Val) => setSlot sc p.1.2 p.2) w1.scratch
   { w1 with scratch := sc }
 
+theorem bindW_scratch (sd : SubDef) (st : List Val) (w1 : World) :
+    (bindW sd st w1).scratch = bindAll ((sd.params.map (·.2)).zip st.reverse) w1.scratch := by
+  simp only [bindW]
+  rw [bindAll, List.zip_map_left, List.foldl_map]
+  rfl
+
 section Callee
 variable (cx : Ctx) (X : MCtx) (cb i : Nat) (st σ' : List Val) (ic : List Nat) (bcs : List Bytes) (w1 : World)
   (hasRet : Bool)
 
-/-- what the machine does from the `callsub` for each result of the callee's body -/
+/-- what the machine does from the `callsub` (stack `st ++ σ'`: arguments, then everything below
+    them) for each result of the callee's body; nothing is claimed about the caller's invariant
+    on the source world at the return point (`case_call` re-establishes it after the restore) -/
 def CalleeGoal : Res → World → Prop
   | .ret none, w3 => hasRet = false ∧
-      ReachS cx X.Pg (X.st ⟨cb, i⟩ ⟨st ++ σ', ic, bcs, w1⟩) (X.st ⟨cb, i + 1⟩ ⟨σ', ic, bcs, w3⟩)
+      ReachS X.dev X.ign cx X.Pg X.inv noInv (X.st ⟨cb, i⟩ ⟨st ++ σ', ic, bcs, w1⟩) (X.st ⟨cb, i + 1⟩ ⟨σ', ic, bcs, w3⟩)
   | .ret (some v), w3 => hasRet = true ∧
-      ReachS cx X.Pg (X.st ⟨cb, i⟩ ⟨st ++ σ', ic, bcs, w1⟩) (X.st ⟨cb, i + 1⟩ ⟨v :: σ', ic, bcs, w3⟩)
+      ReachS X.dev X.ign cx X.Pg X.inv noInv (X.st ⟨cb, i⟩ ⟨st ++ σ', ic, bcs, w1⟩) (X.st ⟨cb, i + 1⟩ ⟨v :: σ', ic, bcs, w3⟩)
   | .vals [], w3 => hasRet = false ∧
-      ReachS cx X.Pg (X.st ⟨cb, i⟩ ⟨st ++ σ', ic, bcs, w1⟩) (X.st ⟨cb, i + 1⟩ ⟨σ', ic, bcs, w3⟩)
+      ReachS X.dev X.ign cx X.Pg X.inv noInv (X.st ⟨cb, i⟩ ⟨st ++ σ', ic, bcs, w1⟩) (X.st ⟨cb, i + 1⟩ ⟨σ', ic, bcs, w3⟩)
   | .vals [v], w3 => hasRet = true ∧
-      ReachS cx X.Pg (X.st ⟨cb, i⟩ ⟨st ++ σ', ic, bcs, w1⟩) (X.st ⟨cb, i + 1⟩ ⟨v :: σ', ic, bcs, w3⟩)
+      ReachS X.dev X.ign cx X.Pg X.inv noInv (X.st ⟨cb, i⟩ ⟨st ++ σ', ic, bcs, w1⟩) (X.st ⟨cb, i + 1⟩ ⟨v :: σ', ic, bcs, w3⟩)
   | .vals _, _ => False
   | .brk, _ => False
   | .cont, _ => False
-  | .exit v, w3 => HaltS cx X.Pg (X.st ⟨cb, i⟩ ⟨st ++ σ', ic, bcs, w1⟩) (retOut v w3)
-  | .fail f, _ => isUnm f ∨ FailS cx X.Pg (X.st ⟨cb, i⟩ ⟨st ++ σ', ic, bcs, w1⟩)
+  | .exit v, w3 => HaltS X.dev X.ign cx X.Pg X.inv (X.st ⟨cb, i⟩ ⟨st ++ σ', ic, bcs, w1⟩) (retOut v w3)
+  | .fail f, _ => isUnm f ∨ FailS X.ign cx X.Pg X.inv (X.st ⟨cb, i⟩ ⟨st ++ σ', ic, bcs, w1⟩)
 
 end Callee
 
-/-- the prologue binds the parameters (up to `SameW`: it stores them in the opposite order) -/
-theorem prologue_reach {cx : Ctx} {Xf : MCtx} {sd : SubDef} {sf bs : Nat} {st σ' : List Val} {ic bcs} {w1 : World}
-    (hpro : Blk Xf.G sf (prologue sd) (.next bs)) (hlen : st.length = sd.params.length)
-    (hnd : (sd.params.map (·.2)).Nodup) (h256 : ∀ kv ∈ sd.params, kv.2 < 256) :
-    ReachO cx Xf ⟨sf, 0⟩ ⟨st ++ σ', ic, bcs, w1⟩ ⟨bs, 0⟩ ⟨σ', ic, bcs, bindW sd st w1⟩ := by
-  refine ReachO.of_block hpro (stores_simple _) (fun wm hw _ => .inr
-    ⟨{ wm with scratch := bindAll ((sd.params.reverse.map (·.2)).zip st) wm.scratch }, ?_, ?_⟩)
-  rotate_left
-  · exact stores_exec (env := ⟨cx, default, none⟩) (σ := σ') (ic := ic) (bcs := bcs) (sd.params.reverse.map (·.2)) st wm
-      (by simp [hlen]) (by
-        intro v hv
-        obtain ⟨kv, hkv, rfl⟩ := List.mem_map.mp hv
-        exact h256 kv (List.mem_reverse.mp hkv))
-  · -- the two binding orders give the same content
-    have hsrc : (sd.params.zip st.reverse).foldl
-        (fun sc (p : (ParamKind × Var) × Val) => setSlot sc p.1.2 p.2) w1.scratch
-        = bindAll ((sd.params.map (·.2)).zip st.reverse) w1.scratch := by
-      rw [bindAll, List.zip_map_left, List.foldl_map]
-      rfl
-    have hrev : (sd.params.reverse.map (·.2)).zip st = ((sd.params.map (·.2)).zip st.reverse).reverse := by
-      rw [zip_reverse_eq _ _ (by simp [hlen]), List.reverse_reverse, List.map_reverse]
-    have hkeys : (((sd.params.map (·.2)).zip st.reverse).map (·.1)).Nodup := by
-      rw [List.map_fst_zip (by simp [hlen])]
-      exact hnd
-    refine ⟨fun x => ?_, ?_⟩
-    · show getSlot (bindW sd st w1).scratch x = _
-      simp only [bindW, hsrc]
-      rw [hrev]
-      exact getSlot_bindAll_reverse _ _ _ hkeys hw.1 x
-    · simp only [bindW]
-      rw [hw.2]
-
-/-- what the body of the callee (entered at `bs` with the stack `σ'` left by the prologue) does,
-    in terms of the caller's return point -/
+/-- what the body of the callee (entered at `bs` on its base) does, in terms of the caller's
+    return point -/
 def BodyRes (cx : Ctx) (X Xf : MCtx) (cb i bs : Nat) (σ' : List Val) (ic : List Nat) (bcs : List Bytes)
     (w2 : World) (hasRet : Bool) : Res → World → Prop
   | .ret ov, w3 => ov.isSome = hasRet ∧
-      ReachS cx X.Pg (Xf.st ⟨bs, 0⟩ ⟨σ', ic, bcs, w2⟩) (X.st ⟨cb, i + 1⟩ ⟨ov.toList ++ σ', ic, bcs, w3⟩)
+      ReachS X.dev X.ign cx X.Pg Xf.inv noInv (Xf.st ⟨bs, 0⟩ (Xf.onBase ⟨[], ic, bcs, w2⟩))
+        (X.st ⟨cb, i + 1⟩ ⟨ov.toList ++ σ', ic, bcs, w3⟩)
   | .vals vs, w3 => vs.length = (if hasRet then 1 else 0) ∧
-      ReachS cx X.Pg (Xf.st ⟨bs, 0⟩ ⟨σ', ic, bcs, w2⟩) (X.st ⟨cb, i + 1⟩ ⟨vs ++ σ', ic, bcs, w3⟩)
+      ReachS X.dev X.ign cx X.Pg Xf.inv noInv (Xf.st ⟨bs, 0⟩ (Xf.onBase ⟨[], ic, bcs, w2⟩))
+        (X.st ⟨cb, i + 1⟩ ⟨vs ++ σ', ic, bcs, w3⟩)
   | .brk, _ => False
   | .cont, _ => False
-  | .exit v, w3 => HaltS cx X.Pg (Xf.st ⟨bs, 0⟩ ⟨σ', ic, bcs, w2⟩) (retOut v w3)
-  | .fail f, _ => isUnm f ∨ FailS cx X.Pg (Xf.st ⟨bs, 0⟩ ⟨σ', ic, bcs, w2⟩)
+  | .exit v, w3 => HaltS X.dev X.ign cx X.Pg Xf.inv (Xf.st ⟨bs, 0⟩ (Xf.onBase ⟨[], ic, bcs, w2⟩)) (retOut v w3)
+  | .fail f, _ => isUnm f ∨ FailS X.ign cx X.Pg Xf.inv (Xf.st ⟨bs, 0⟩ (Xf.onBase ⟨[], ic, bcs, w2⟩))
 
 theorem BodyRes.callee {cx : Ctx} {X Xf : MCtx} {cb i bs : Nat} {st σ' : List Val} {ic bcs} {w1 w2 : World}
     {hasRet : Bool} {r3 : Res} {w3 : World}
-    (pre : ReachS cx X.Pg (X.st ⟨cb, i⟩ ⟨st ++ σ', ic, bcs, w1⟩) (Xf.st ⟨bs, 0⟩ ⟨σ', ic, bcs, w2⟩))
+    (pre : ReachS X.dev X.ign cx X.Pg X.inv Xf.inv (X.st ⟨cb, i⟩ ⟨st ++ σ', ic, bcs, w1⟩)
+      (Xf.st ⟨bs, 0⟩ (Xf.onBase ⟨[], ic, bcs, w2⟩)))
     (h : BodyRes cx X Xf cb i bs σ' ic bcs w2 hasRet r3 w3) :
     CalleeGoal cx X cb i st σ' ic bcs w1 hasRet r3 w3 := by
   cases r3 with
@@ -196,80 +375,84 @@ theorem BodyRes.callee {cx : Ctx} {X Xf : MCtx} {cb i bs : Nat} {st σ' : List V
   | exit v => exact pre.haltS h
   | fail f => exact h.imp id pre.failS
 
-/-- a `Goal` of the callee's body at the top of the routine, read from the caller's side -/
-theorem bodyRes_of_goal {cx : Ctx} {X Xf : MCtx} {cb i bs kk : Nat} {σ' : List Val} {ic bcs} {w2 : World}
-    {hasRet : Bool} {n : Nat} {r3 : Res} {w3 : World} {fr : GFrame}
-    (hXf : Xf.Pg = X.Pg) (hr : ∃ l, Xf.r = some l) (hcs : Xf.cs = fr :: X.cs)
-    (hfr : fr.ret = X.r ∧ fr.pt = ⟨cb, i + 1⟩)
-    (g : Goal cx Xf bs kk none false true hasRet n σ' ic bcs w2 r3 w3)
-    (hvals : ∀ vs, r3 = .vals vs → vs.length = (if hasRet then 1 else 0) ∧
-      ReachS cx X.Pg (Xf.st ⟨bs, 0⟩ ⟨σ', ic, bcs, w2⟩) (X.st ⟨cb, i + 1⟩ ⟨vs ++ σ', ic, bcs, w3⟩)) :
-    BodyRes cx X Xf cb i bs σ' ic bcs w2 hasRet r3 w3 := by
-  obtain ⟨l, hl⟩ := hr
-  cases r3 with
-  | ret ov =>
-    obtain ⟨_, hov, hg⟩ := g
-    unfold RetGoal at hg
-    simp only [hl, hcs] at hg
-    refine ⟨hov, ?_⟩
-    have := hg.2
-    rw [hfr.1, hfr.2, hXf] at this
-    exact this
-  | vals vs => exact hvals vs rfl
-  | brk => obtain ⟨_, l', hl', _⟩ := g; cases hl'
-  | cont => obtain ⟨_, l', hl', _⟩ := g; cases hl'
-  | exit v =>
-    have : HaltS cx Xf.Pg (Xf.st ⟨bs, 0⟩ ⟨σ', ic, bcs, w2⟩) (retOut v w3) := g
-    rw [hXf] at this
-    exact this
-  | fail f =>
-    refine g.imp id (fun h => ?_)
-    have : FailS cx Xf.Pg (Xf.st ⟨bs, 0⟩ ⟨σ', ic, bcs, w2⟩) := h
-    rw [hXf] at this
-    exact this
-
-theorem callee_run {P : PCtx} {fuel : Nat} (hP : ProgOK P) (ihAll : All P fuel) {X : MCtx} (hXP : X.Pg = P.Pg)
-    {f : Nat} {sd : SubDef} (hsd : findSub P.p f = some sd) (hpres : Present P f)
-    {cb i : Nat} {blk : Block} (hbk : X.G[cb]? = some blk) (hx : blk.ops[i]? = some (.callsub (subLabel f)))
-    {st σ' : List Val} {ic bcs} {w1 : World} (hlen : st.length = sd.params.length)
-    {r3 : Res} {w3 : World} (hev : eval ⟨P.cx, P.p, some f⟩ fuel sd.body (bindW sd st w1) = (r3, w3)) :
-    CalleeGoal P.cx X cb i st σ' ic bcs w1 sd.hasRet r3 w3 := by
-  have hS := hP f sd hsd hpres
-  obtain ⟨G, sf, bs, hl, hpro, hsh⟩ := hS.look
-  rw [← hXP] at hl
-  let fr : GFrame := { ret := X.r, pt := ⟨cb, i + 1⟩, height := (st ++ σ').length }
-  let Xf : MCtx := ⟨X.Pg, some (subLabel f), fr :: X.cs, G, by simp [PProg.graphOf, hl]⟩
-  have hcall : ReachS P.cx X.Pg (X.st ⟨cb, i⟩ ⟨st ++ σ', ic, bcs, w1⟩) (Xf.st ⟨sf, 0⟩ ⟨st ++ σ', ic, bcs, w1⟩) :=
-    fun wm hw _ => .inr ⟨wm, hw, .step (callsub_step hbk hx hl)⟩
-  have hpre : ReachS P.cx X.Pg (X.st ⟨cb, i⟩ ⟨st ++ σ', ic, bcs, w1⟩)
-      (Xf.st ⟨bs, 0⟩ ⟨σ', ic, bcs, bindW sd st w1⟩) :=
-    hcall.trans (prologue_reach (Xf := Xf) hpro hlen hS.pnodup hS.p256)
-  have hRK : RoutOK P Xf (subCfg P sd) (P.K sd.hasRet) (some f) := .sub hXP hsd rfl rfl rfl
+/-- the body of the callee (wrapped as `compileSubroutine` wraps it), from its entry block on its
+    base to the caller's return point -/
+theorem body_run {P : PCtx} {fuel : Nat} (ihAll : All P fuel) {X Xf : MCtx} {f : Nat} {sd : SubDef}
+    (hS : SubOK P f sd) (hP : ProgOK P)
+    (hRK : RoutOK P Xf (subCfg P sd) (subK P.fp P.p sd P.dyn) (some f))
+    {fr : GFrame} {cb i bs : Nat} {σ' : List Val} {ic bcs}
+    (hr0 : Xf.r = some (subLabel f)) (hcs : Xf.cs = fr :: X.cs) (hfr : fr.ret = X.r ∧ fr.pt = ⟨cb, i + 1⟩)
+    (hpg : Xf.Pg = X.Pg) (hign : Xf.ign = X.ign) (hdev : Xf.dev = X.dev)
+    (hsh : ShapeR Xf.G (subCfg P sd) (wrapBody sd) bs 0 none)
+    (hret : ∀ ov : Option Val, ov.isSome = sd.hasRet → retStack Xf fr ov [] = ov.toList ++ σ')
+    {w2 : World} {r3 : Res} {w3 : World} (hev : eval ⟨P.cx, P.p, some f⟩ fuel sd.body w2 = (r3, w3)) :
+    BodyRes P.cx X Xf cb i bs σ' ic bcs w2 sd.hasRet r3 w3 := by
   have ihf := ihAll Xf _ _ _ hRK
-  refine BodyRes.callee hpre ?_
+  have hF := hRK.facts hP
+  have hrv : (subK P.fp P.p sd P.dyn).rv = sd.hasRet := by unfold subK; split <;> rfl
+  -- a `Goal` of the body at the top of the routine, read from the caller's side
+  have conv : ∀ {kk n}, Goal P.cx Xf bs kk none false true sd.hasRet n [] ic bcs w2 r3 w3 →
+      (∀ vs, r3 = .vals vs → vs.length = (if sd.hasRet then 1 else 0) ∧
+        ReachS X.dev X.ign P.cx X.Pg Xf.inv noInv (Xf.st ⟨bs, 0⟩ (Xf.onBase ⟨[], ic, bcs, w2⟩))
+          (X.st ⟨cb, i + 1⟩ ⟨vs ++ σ', ic, bcs, w3⟩)) →
+      BodyRes P.cx X Xf cb i bs σ' ic bcs w2 sd.hasRet r3 w3 := by
+    intro kk n g hvals
+    cases r3 with
+    | ret ov =>
+      obtain ⟨_, hov, hg⟩ := g
+      unfold RetGoal at hg
+      simp only [hr0, hcs] at hg
+      refine ⟨hov, ?_⟩
+      rw [hret ov hov, hfr.1, hfr.2, hpg, hign, hdev] at hg
+      exact hg
+    | vals vs => exact hvals vs rfl
+    | brk => obtain ⟨_, l', hl', _⟩ := g; cases hl'
+    | cont => obtain ⟨_, l', hl', _⟩ := g; cases hl'
+    | exit v =>
+      have : HaltS Xf.dev Xf.ign P.cx Xf.Pg Xf.inv (Xf.st ⟨bs, 0⟩ (Xf.onBase ⟨[], ic, bcs, w2⟩)) (retOut v w3) := g
+      rw [hpg, hign, hdev] at this
+      exact this
+    | fail f' =>
+      refine g.imp id (fun h => ?_)
+      have : FailS Xf.ign P.cx Xf.Pg Xf.inv (Xf.st ⟨bs, 0⟩ (Xf.onBase ⟨[], ic, bcs, w2⟩)) := h
+      rw [hpg, hign] at this
+      exact this
+  -- `retsub` block after a normal completion of the body with values `vs`
+  have viaRetsub : ∀ {ob k : Nat} {ov : Option Val}, Blk Xf.G ob [.retsub] (.next k) → ov.isSome = sd.hasRet →
+      ReachO P.cx Xf ⟨bs, 0⟩ ⟨[], ic, bcs, w2⟩ ⟨ob, 0⟩ ⟨ov.toList ++ [], ic, bcs, w3⟩ →
+      ReachS X.dev X.ign P.cx X.Pg Xf.inv noInv (Xf.st ⟨bs, 0⟩ (Xf.onBase ⟨[], ic, bcs, w2⟩))
+        (X.st ⟨cb, i + 1⟩ ⟨ov.toList ++ σ', ic, bcs, w3⟩) := by
+    intro ob k ov hb hov hr
+    have h2 := retsub_reach (env := ⟨P.cx, P.p, some f⟩) (σ := []) (ic := ic) (bcs := bcs) (w := w3) (ov := ov)
+      hF.kind hb hr0 hcs (by rw [hrv]; exact hov)
+    have h3 := ReachS.trans hr h2
+    rw [hret ov hov, hfr.1, hfr.2, hpg, hign, hdev] at h3
+    exact h3
   have hwt := hS.wt
   unfold wrapBody at hsh
   split at hsh
   · -- the body has a return on every path: compiled as it is
-    rename_i hret
-    have g := ihf.ev _ _ _ _ _ _ _ σ' ic bcs _ _ _ hsh hwt hev
-    exact bodyRes_of_goal (fr := fr) rfl ⟨_, rfl⟩ rfl ⟨rfl, rfl⟩ g
-      (fun vs hvs => by subst hvs; exact (hasReturn_no_vals hret hev).elim)
+    rename_i hret'
+    have g := ihf.ev _ _ _ _ _ _ _ [] ic bcs _ _ _ hsh hwt hev
+    rw [hrv] at g
+    exact conv g (fun vs hvs => by subst hvs; exact (hasReturn_no_vals hret' hev).elim)
   · split at hsh
     · -- `Return(body)`
-      rename_i hret hhr
+      rename_i hret' hhr
       rw [if_pos hhr] at hwt
       cases hsh with
       | ret hb he =>
         have hb' : Blk Xf.G _ [.retsub] (.next 0) := hb
-        have g := ihf.ev _ _ _ _ _ _ _ σ' ic bcs _ _ _ he hwt hev
-        refine bodyRes_of_goal (fr := fr) rfl ⟨_, rfl⟩ rfl ⟨rfl, rfl⟩ g (fun vs hvs => ?_)
+        have g := ihf.ev _ _ _ _ _ _ _ [] ic bcs _ _ _ he hwt hev
+        rw [hrv] at g
+        refine conv g (fun vs hvs => ?_)
         subst hvs
         obtain ⟨hl1, hr⟩ := g
         refine ⟨by simpa [hhr] using hl1, ?_⟩
-        exact ReachS.trans hr (retsub_reach (X := Xf) hb' rfl rfl)
+        match vs, hl1 with
+        | [v], _ => exact viaRetsub (ov := some v) hb' (by simp [hhr]) hr
     · -- `Seq(body, Return())`
-      rename_i hret hhr
+      rename_i hret' hhr
       rw [if_neg hhr] at hwt
       cases hsh with
       | seq hss =>
@@ -279,12 +462,131 @@ theorem callee_run {P : PCtx} {fuel : Nat} (hP : ProgOK P) (ihAll : All P fuel) 
           | cons hnil hretn =>
             cases hretn with
             | retNone _ hb =>
-              have g := ihf.ev _ _ _ _ _ _ _ σ' ic bcs _ _ _ he hwt hev
-              refine bodyRes_of_goal (fr := fr) rfl ⟨_, rfl⟩ rfl ⟨rfl, rfl⟩ g (fun vs hvs => ?_)
+              have g := ihf.ev _ _ _ _ _ _ _ [] ic bcs _ _ _ he hwt hev
+              rw [hrv] at g
+              refine conv g (fun vs hvs => ?_)
               subst hvs
               obtain ⟨hl1, hr⟩ := g
               refine ⟨by simpa [hhr] using hl1, ?_⟩
-              exact ReachS.trans hr (retsub_reach (X := Xf) hb rfl rfl)
+              have hnil' : vs = [] := List.length_eq_zero_iff.mp hl1
+              subst hnil'
+              exact viaRetsub (ov := none) hb (by simp [hhr]) hr
+
+/-- the prologue of the scratch-slot convention binds the parameters (up to `SameW`: it stores them
+    in the opposite order) -/
+theorem prologue_reach {cx : Ctx} {Xf : MCtx} {sd : SubDef} {sf bs : Nat} {st : List Val} {ic bcs} {w1 : World}
+    (hinv : Xf.inv = noInv)
+    (hpro : Blk Xf.G sf ((sd.params.reverse.map (·.2)).map Instr.store) (.next bs))
+    (hlen : st.length = sd.params.length)
+    (hnd : (sd.params.map (·.2)).Nodup) (h256 : ∀ kv ∈ sd.params, kv.2 < 256) :
+    ReachO cx Xf ⟨sf, 0⟩ ⟨st, ic, bcs, w1⟩ ⟨bs, 0⟩ ⟨[], ic, bcs, bindW sd st w1⟩ := by
+  refine ReachO.of_block hpro (stores_simple _) (fun wm hw _ _ => .inr
+    ⟨{ wm with scratch := bindAll ((sd.params.reverse.map (·.2)).zip st) wm.scratch }, ?_, ?_, ?_⟩)
+  rotate_left
+  · rw [hinv]; trivial
+  · exact stores_exec (env := ⟨cx, default, none⟩) (σ := Xf.base) (ic := ic) (bcs := bcs) (sd.params.reverse.map (·.2)) st wm
+      (by simp [hlen]) (by
+        intro v hv
+        obtain ⟨kv, hkv, rfl⟩ := List.mem_map.mp hv
+        exact h256 kv (List.mem_reverse.mp hkv))
+  · -- the two binding orders give the same content
+    have hrev : (sd.params.reverse.map (·.2)).zip st = ((sd.params.map (·.2)).zip st.reverse).reverse := by
+      rw [zip_reverse_eq _ _ (by simp [hlen]), List.reverse_reverse, List.map_reverse]
+    have hkeys : (((sd.params.map (·.2)).zip st.reverse).map (·.1)).Nodup := by
+      rw [List.map_fst_zip (by simp [hlen])]
+      exact hnd
+    have hnd' : ((((sd.params.map (·.2)).zip st.reverse).reverse).map (·.1)).Nodup := by
+      rw [List.map_reverse]; exact nodup_reverse_of hkeys
+    refine ⟨fun x hx => ?_, ?_⟩
+    · show getSlot (bindW sd st w1).scratch x = _
+      rw [bindW_scratch, hrev, getSlot_bindAll _ _ x hkeys, getSlot_bindAll _ _ x hnd', lookup_reverse _ x hkeys,
+        hw.1 x hx]
+    · simp only [bindW]
+      rw [hw.2]
+
+theorem pInv_bindW {sd : SubDef} {st : List Val} {w1 : World} (hlen : st.length = sd.params.length)
+    (hnd : (sd.params.map (·.2)).Nodup) : pInv sd st (bindW sd st w1) := by
+  intro pr hpr
+  have hkeys : (((sd.params.map (·.2)).zip st.reverse).map (·.1)).Nodup := by
+    rw [List.map_fst_zip (by simp [hlen])]
+    exact hnd
+  rw [bindW_scratch, getSlot_bindAll _ _ _ hkeys, lookup_eq_some_of_mem _ pr.1 pr.2 hkeys hpr]
+
+theorem callee_run {P : PCtx} {fuel : Nat} (hP : ProgOK P) (ihAll : All P fuel) {X : MCtx} {cfg K cur}
+    (hR : RoutOK P X cfg K cur)
+    {f : Nat} {sd : SubDef} (hsd : findSub P.p f = some sd) (hpres : Present P f)
+    {cb i : Nat} {blk : Block} (hbk : X.G[cb]? = some blk) (hx : blk.ops[i]? = some (.callsub (subLabel f)))
+    {st σ' : List Val} {ic bcs} {w1 : World} (hlen : st.length = sd.params.length)
+    {r3 : Res} {w3 : World} (hev : eval ⟨P.cx, P.p, some f⟩ fuel sd.body (bindW sd st w1) = (r3, w3)) :
+    CalleeGoal P.cx X cb i st σ' ic bcs w1 sd.hasRet r3 w3 := by
+  have hXP := hR.pg
+  have hS := hP f sd hsd hpres
+  obtain ⟨G, sf, bs, hl, hpro, hsh⟩ := hS.look
+  rw [← hXP] at hl
+  have hGf : X.Pg.graphOf (some (subLabel f)) = some G := by simp [PProg.graphOf, hl]
+  cases hfp : P.fp with
+  | false =>
+    -- scratch-slot convention
+    let fr : GFrame := { ret := X.r, pt := ⟨cb, i + 1⟩, height := (st ++ σ').length }
+    let Xf : MCtx := { Pg := X.Pg, r := some (subLabel f), cs := fr :: X.cs, G := G, hG := hGf,
+                       ign := X.ign, inv := noInv, base := σ', dev := X.dev, devOvf := X.devOvf }
+    have hcall : ReachS X.dev X.ign P.cx X.Pg X.inv noInv (X.st ⟨cb, i⟩ ⟨st ++ σ', ic, bcs, w1⟩)
+        (Xf.st ⟨sf, 0⟩ (Xf.onBase ⟨st, ic, bcs, w1⟩)) :=
+      fun wm hw _ _ => .inr ⟨wm, hw, trivial, .step (callsub_step hbk hx hl)⟩
+    simp only [prologue, hfp, Bool.false_eq_true, if_false] at hpro
+    have hpre : ReachS X.dev X.ign P.cx X.Pg X.inv Xf.inv (X.st ⟨cb, i⟩ ⟨st ++ σ', ic, bcs, w1⟩)
+        (Xf.st ⟨bs, 0⟩ (Xf.onBase ⟨[], ic, bcs, bindW sd st w1⟩)) :=
+      hcall.trans (prologue_reach (Xf := Xf) rfl hpro hlen hS.pnodup (hS.p256 hfp))
+    have hRK : RoutOK P Xf (subCfg P sd) (subK P.fp P.p sd P.dyn) (some f) :=
+      .sub hXP hfp hsd rfl rfl rfl hR.ign rfl hR.dev
+    refine BodyRes.callee hpre (body_run ihAll hS hP hRK (fr := fr) rfl rfl ⟨rfl, rfl⟩ rfl rfl rfl hsh ?_ hev)
+    intro ov _
+    simp only [retStack, List.append_nil]
+    rfl
+  | true =>
+    -- frame-pointer convention
+    let fr0 : GFrame := { ret := X.r, pt := ⟨cb, i + 1⟩, height := (st ++ σ').length }
+    let fr : GFrame := { fr0 with proto := some (sd.params.length, if sd.hasRet then 1 else 0) }
+    let X0 : MCtx := { Pg := X.Pg, r := some (subLabel f), cs := fr0 :: X.cs, G := G, hG := hGf }
+    let Xf : MCtx := { Pg := X.Pg, r := some (subLabel f), cs := fr :: X.cs, G := G, hG := hGf,
+                       ign := X.ign, inv := pInv sd st, base := st ++ σ', dev := X.dev,
+                       devOvf := X.devOvf }
+    simp only [prologue, hfp, if_true] at hpro
+    unfold Blk at hpro
+    have hpre : ReachS X.dev X.ign P.cx X.Pg X.inv Xf.inv (X.st ⟨cb, i⟩ ⟨st ++ σ', ic, bcs, w1⟩)
+        (Xf.st ⟨bs, 0⟩ (Xf.onBase ⟨[], ic, bcs, bindW sd st w1⟩)) := by
+      intro wm hw _ _
+      refine .inr ⟨wm, ⟨fun x hx => ?_, ?_⟩, pInv_bindW hlen hS.pnodup, ?_⟩
+      · -- the binding only writes ignored slots
+        show getSlot (bindW sd st w1).scratch x = _
+        rw [bindW_scratch, getSlot_foldl_notin _ _ _ ?_]
+        · exact hw.1 x hx
+        · intro hmem
+          obtain ⟨pr, hpr, hpr1⟩ := List.mem_map.mp hmem
+          have := (List.of_mem_zip hpr).1
+          obtain ⟨kv, hkv, hkv2⟩ := List.mem_map.mp this
+          have hin : kv.2 ∈ P.ign := hS.pign hfp kv hkv
+          rw [hR.ign] at hx
+          exact hx (by rw [← hpr1, ← hkv2]; exact hin)
+      · exact hw.2
+      · have s1 : gstepP P.cx X.Pg (X.st ⟨cb, i⟩ ⟨st ++ σ', ic, bcs, wm⟩) = _ := callsub_step hbk hx hl
+        have s2 := proto_step (cx := P.cx) (X := X0) (b := sf) (a := sd.params.length)
+          (r := if sd.hasRet then 1 else 0) (m := ⟨st ++ σ', ic, bcs, wm⟩) hpro rfl rfl rfl
+          (by simp [hlen])
+        have s3 := step_exit (cx := P.cx) (X := Xf) (b := sf) (i := 1) (k := bs) (m := ⟨st ++ σ', ic, bcs, wm⟩)
+          hpro rfl rfl
+        exact (ReachP.step s1).trans ((ReachP.step s2).trans (ReachP.step s3))
+    have hRK : RoutOK P Xf (subCfg P sd) (subK P.fp P.p sd P.dyn) (some f) :=
+      .subFp hXP hfp hsd rfl rfl rfl rfl hlen rfl hR.ign rfl hR.dev
+    refine BodyRes.callee hpre (body_run ihAll hS hP hRK (fr := fr) rfl rfl ⟨rfl, rfl⟩ rfl rfl rfl hsh ?_ hev)
+    intro ov hov
+    simp only [retStack, List.append_nil]
+    have hdrop : (st ++ σ').drop sd.params.length = σ' := by rw [← hlen]; exact List.drop_left
+    show ((ov.toList).reverse.take (if sd.hasRet then 1 else 0)).reverse ++ (st ++ σ').drop sd.params.length = _
+    rw [hdrop]
+    cases ov with
+    | none => simp only [Option.isSome_none] at hov; simp [← hov]
+    | some v => simp only [Option.isSome_some] at hov; simp [← hov]
 
 /-! ### the ops around the `callsub` -/
 
@@ -303,14 +605,14 @@ def restoreW (locals : List Var) (w1 w3 : World) : World :=
 
 /-- What the ops of a call block have to do around the `callsub` at position `i`: bring the
     arguments `st` to the top of some stack `rest` (the spilled locals go underneath), and after
-    the callee has replaced them by its results `rets`, re-establish the caller's stack `σ` and
-    locals. -/
+    the callee has replaced them by its results `rets`, re-establish the caller's stack `σ`
+    (everything below the arguments, the routine's base included) and locals. -/
 def CallFrame (cx : Ctx) (X : MCtx) (cb k f nret : Nat) (locals : List Var) (st σ : List Val) (ic : List Nat)
     (bcs : List Bytes) (w1 : World) : Prop :=
   ∃ blk i rest, X.G[cb]? = some blk ∧ blk.ops[i]? = some (.callsub (subLabel f)) ∧
-    ReachS cx X.Pg (X.st ⟨cb, 0⟩ ⟨st ++ σ, ic, bcs, w1⟩) (X.st ⟨cb, i⟩ ⟨st ++ rest, ic, bcs, w1⟩) ∧
+    ReachS X.dev X.ign cx X.Pg X.inv X.inv (X.st ⟨cb, 0⟩ ⟨st ++ σ, ic, bcs, w1⟩) (X.st ⟨cb, i⟩ ⟨st ++ rest, ic, bcs, w1⟩) ∧
     ∀ rets w3, rets.length = nret →
-      ReachS cx X.Pg (X.st ⟨cb, i + 1⟩ ⟨rets ++ rest, ic, bcs, w3⟩)
+      ReachS X.dev X.ign cx X.Pg noInv noInv (X.st ⟨cb, i + 1⟩ ⟨rets ++ rest, ic, bcs, w3⟩)
         (X.st ⟨k, 0⟩ ⟨rets ++ σ, ic, bcs, restoreW locals w1 w3⟩)
 
 def FrameProvider (P : PCtx) : Prop :=
@@ -318,7 +620,24 @@ def FrameProvider (P : PCtx) : Prop :=
     cfg.callees.find? (·.id == f) = some ce → Blk X.G cb (callOps cfg f ce) (.next k) → st.length = ce.nArgs →
     CallFrame P.cx X cb k f (if ce.hasRet then 1 else 0) (srcLocals P.p cur f) st σ ic bcs w1
 
-theorem case_call {P : PCtx} {fuel : Nat} (hP : ProgOK P) (hC : CallPresent P) (hF : FrameProvider P) (ihAll : All P fuel)
+/-- the call is allowed by the typing context -/
+def callAllowed (K : RK) (f : Nat) : Bool :=
+  match K.okCalls with
+  | some l => l.contains f
+  | none => true
+
+/-- the caller's invariant on the source world survives an allowed call (scratch-slot convention:
+    there is no invariant; frame-pointer convention: the parameter cells of the caller are restored
+    by the source semantics after a re-entrant call and untouched by any other call —
+    `Proofs/C02GenPres.lean`) -/
+def CallInv (P : PCtx) : Prop :=
+  ∀ X cfg K cur, RoutOK P X cfg K cur → ∀ f sd st w1 fuel r3 w3, findSub P.p f = some sd →
+    callAllowed K f = true → st.length = sd.params.length →
+    eval ⟨P.cx, P.p, some f⟩ fuel sd.body (bindW sd st w1) = (r3, w3) →
+    X.inv w1 → X.inv (restoreW (srcLocals P.p cur f) w1 w3)
+
+theorem case_call {P : PCtx} {fuel : Nat} (hP : ProgOK P) (hC : CallPresent P) (hF : FrameProvider P)
+    (hI : CallInv P) (ihAll : All P fuel)
     {X : MCtx} {cfg : RCfg} {K : RK} {cur : Option Nat} (hR : RoutOK P X cfg K cur)
     (ih : AllX X cfg K ⟨P.cx, P.p, cur⟩ fuel)
     {f args ce s cb k L bc rc n σ ic bcs w r w'}
@@ -336,7 +655,7 @@ theorem case_call {P : PCtx} {fuel : Nat} (hP : ProgOK P) (hC : CallPresent P) (
     simp only [wtR, hR.kcallees] at hw
     rw [← hR.callees, hf] at hw
     simp only [Bool.and_eq_true, beq_iff_eq] at hw
-    obtain ⟨⟨hnargs, hn⟩, hwa⟩ := hw
+    obtain ⟨⟨⟨hnargs, hn⟩, hallow⟩, hwa⟩ := hw
     have hce1 : ce.nArgs = sd.params.length := by rw [← hf']; rfl
     have hce2 : ce.hasRet = sd.hasRet := by rw [← hf']; rfl
     simp only [eval, hsd] at h
@@ -349,19 +668,37 @@ theorem case_call {P : PCtx} {fuel : Nat} (hP : ProgOK P) (hC : CallPresent P) (
       obtain ⟨hlen, hr⟩ := g1
       have hlen' : st.length = sd.params.length := by omega
       obtain ⟨blk, i, rest, hbk, hx, hBefore, hAfter⟩ :=
-        hF X cfg K cur hR f ce cb k st σ ic bcs w1 hf hb (by omega)
+        hF X cfg K cur hR f ce cb k st (σ ++ X.base) ic bcs w1 hf hb (by omega)
       simp only [List.length_reverse, hlen', ne_eq, not_true_eq_false, if_false] at h
       rcases hbody : eval ⟨P.cx, P.p, some f⟩ fuel sd.body (bindW sd st w1) with ⟨r3, w3⟩
-      have cg := callee_run (σ' := rest) (ic := ic) (bcs := bcs) hP ihAll hR.pg hsd
+      have cg := callee_run (σ' := rest) (ic := ic) (bcs := bcs) hP ihAll hR hsd
         (hC X cfg K cur hR f ce cb k hf hb) hbk hx hlen' hbody
+      have hinv := hI X cfg K cur hR f sd st w1 fuel r3 w3 hsd hallow hlen' hbody
       have hbody' := hbody
       simp only [bindW] at hbody'
       rw [hbody'] at h
       simp only [] at h
-      have hpre : ReachS P.cx X.Pg (X.st ⟨s, 0⟩ ⟨σ, ic, bcs, w⟩) (X.st ⟨cb, i⟩ ⟨st ++ rest, ic, bcs, w1⟩) :=
-        ReachS.trans hr hBefore
+      have hr' : ReachS X.dev X.ign P.cx X.Pg X.inv X.inv (X.st ⟨s, 0⟩ (X.onBase ⟨σ, ic, bcs, w⟩))
+          (X.st ⟨cb, 0⟩ ⟨st ++ (σ ++ X.base), ic, bcs, w1⟩) := by
+        have := hr
+        simp only [ReachO, MCtx.onBase, List.append_assoc] at this
+        exact this
+      have hpre : ReachS X.dev X.ign P.cx X.Pg X.inv X.inv (X.st ⟨s, 0⟩ (X.onBase ⟨σ, ic, bcs, w⟩))
+          (X.st ⟨cb, i⟩ ⟨st ++ rest, ic, bcs, w1⟩) := ReachS.trans hr' hBefore
       have hnret : ∀ rets : List Val, rets.length = (if sd.hasRet then 1 else 0) →
           rets.length = (if ce.hasRet then 1 else 0) := by intro rets hh; rw [hce2]; exact hh
+      -- the normal return: through the callee, then the restore, re-establishing the invariant
+      have finish : ∀ rets : List Val, rets.length = (if sd.hasRet then 1 else 0) →
+          ReachS X.dev X.ign P.cx X.Pg X.inv noInv (X.st ⟨cb, i⟩ ⟨st ++ rest, ic, bcs, w1⟩)
+            (X.st ⟨cb, i + 1⟩ ⟨rets ++ rest, ic, bcs, w3⟩) →
+          ReachO P.cx X ⟨s, 0⟩ ⟨σ, ic, bcs, w⟩ ⟨k, 0⟩
+            ⟨rets ++ σ, ic, bcs, restoreW (srcLocals P.p cur f) w1 w3⟩ := by
+        intro rets hrl hR3
+        have h2 := (ReachS.trans hR3 (hAfter rets w3 (hnret rets hrl))).mono (Ia' := X.inv) (Ib' := X.inv) id
+          (fun hi _ => hinv hi)
+        have h3 := ReachS.trans hpre h2
+        simp only [ReachO, MCtx.onBase, List.append_assoc]
+        exact h3
       cases r3 with
       | ret ov =>
         cases ov with
@@ -369,28 +706,24 @@ theorem case_call {P : PCtx} {fuel : Nat} (hP : ProgOK P) (hC : CallPresent P) (
           obtain ⟨hhr, hR3⟩ := cg
           simp only [hhr, Bool.false_eq_true, if_false] at h
           cases h
-          refine ⟨by rw [hn, hce2, hhr]; rfl, ?_⟩
-          exact ReachS.trans hpre (ReachS.trans hR3 (hAfter [] w3 (hnret [] (by simp [hhr]))))
+          exact ⟨by rw [hn, hce2, hhr]; rfl, finish [] (by simp [hhr]) hR3⟩
         | some v =>
           obtain ⟨hhr, hR3⟩ := cg
           simp only [hhr, if_true] at h
           cases h
-          refine ⟨by rw [hn, hce2, hhr]; rfl, ?_⟩
-          exact ReachS.trans hpre (ReachS.trans hR3 (hAfter [v] w3 (hnret [v] (by simp [hhr]))))
+          exact ⟨by rw [hn, hce2, hhr]; rfl, finish [v] (by simp [hhr]) hR3⟩
       | vals vs =>
         match vs, cg with
         | [], cg =>
           obtain ⟨hhr, hR3⟩ := cg
           simp only [hhr, Bool.false_eq_true, if_false] at h
           cases h
-          refine ⟨by rw [hn, hce2, hhr]; rfl, ?_⟩
-          exact ReachS.trans hpre (ReachS.trans hR3 (hAfter [] w3 (hnret [] (by simp [hhr]))))
+          exact ⟨by rw [hn, hce2, hhr]; rfl, finish [] (by simp [hhr]) hR3⟩
         | [v], cg =>
           obtain ⟨hhr, hR3⟩ := cg
           simp only [hhr, if_true] at h
           cases h
-          refine ⟨by rw [hn, hce2, hhr]; rfl, ?_⟩
-          exact ReachS.trans hpre (ReachS.trans hR3 (hAfter [v] w3 (hnret [v] (by simp [hhr]))))
+          exact ⟨by rw [hn, hce2, hhr]; rfl, finish [v] (by simp [hhr]) hR3⟩
         | _ :: _ :: _, cg => exact cg.elim
       | brk => exact cg.elim
       | cont => exact cg.elim
@@ -407,7 +740,8 @@ theorem case_call {P : PCtx} {fuel : Nat} (hP : ProgOK P) (hC : CallPresent P) (
 
 /-- **Semantic half for whole programs.**  Every routine graph of the program matches `Src.eval`
     (all five mutually recursive evaluators, all routines, all call stacks). -/
-theorem sound_all {P : PCtx} (hP : ProgOK P) (hC : CallPresent P) (hF : FrameProvider P) : ∀ fuel, All P fuel := by
+theorem sound_all {P : PCtx} (hP : ProgOK P) (hC : CallPresent P) (hF : FrameProvider P) (hI : CallInv P) :
+    ∀ fuel, All P fuel := by
   intro fuel
   induction fuel using Nat.strongRecOn with
   | _ fuel ih =>
@@ -421,9 +755,9 @@ theorem sound_all {P : PCtx} (hP : ProgOK P) (hC : CallPresent P) (hF : FramePro
       have ihAll : All P f := ih f (Nat.lt_succ_self f)
       exact {
         ev := fun e s k L bc rc n σ ic bcs w r w' hs hw h =>
-          step_ev hR.kind hR.mark hR.fp ihs
+          step_ev (hR.facts hP) ihs
             (fun f' args ce s cb k L bc rc n σ ic bcs w r w' hf hb ha hw h =>
-              case_call hP hC hF ihAll hR ihf hf hb ha hw h) hs hw h
+              case_call hP hC hF hI ihAll hR ihf hf hb ha hw h) hs hw h
         args := fun es s k L acc σ ic bcs w r w' ha hw h => step_args ihf ha hw h
         seq := fun es s k L bc rc n σ ic bcs w r w' hs hw h => step_seq ihf hs hw h
         cond := fun arms s endB errB L bc rc n σ ic bcs w r w' hs herr hw h => step_cond ihf hs herr hw h
